@@ -267,8 +267,7 @@ def run(scn: dict) -> dict:
             await w.sleep(end - w.loop.vt)
         await w.drain()
         info["end"] = w.loop.vt
-        if not spec["dst"]:
-            info["successor"] = await successor_probes(w, scn)
+        info["successor"] = await successor_probes(w, scn)
 
     w.run(driver)
     violations, nontrivial, extra = oracle(w, scn, info)
@@ -321,13 +320,18 @@ async def successor_probes(w: World, scn: dict) -> list:
                 w.probe("successor_probe_at_dst_change")
             hour += dt.timedelta(hours=1)
         srcs = [C.spec_src(sp) for sp in specs]
+
+        def exists(local):  # a label inside the hour skipped by a spring-forward change is no instant at all
+            return zone_.to_local(zone_.to_utc(local)) == local
+
         for now in nows:
-            if now <= startup or now >= denoted[-1]:
+            if now <= startup or now >= denoted[-1] or not exists(now):
                 continue
             want = next(d for d in denoted if d > now)
             got, _adj = await TrigTime.timer_trigger_next(list(srcs), now, startup)
             w.probe("successor_probe")
-            if got is None or abs((got - want).total_seconds()) > 1e-5:
+            # (compared as absolute instants: a label inside a skipped hour names the instant one hour later)
+            if got is None or abs((zone_.to_utc(got) - zone_.to_utc(want)).total_seconds()) > 1e-5:
                 out.append({"specs": srcs, "now": str(now), "startup": str(startup), "got": str(got), "want": str(want),
                             "on_instant": now in denoted})
     # ---- once(MM/DD hh:mm:ss) without a year = once per year: the next occurrence can be up to a year (and a leap
